@@ -61,7 +61,17 @@ func docs() []pdfw.Doc {
 		ln(pdfw.Type1Differences, 700, "price € 5 • item Ω end"),
 		ln(pdfw.Type1WinAnsi, 670, "AB plain Aa"),
 	}}, {Lines: []pdfw.Line{ln(pdfw.Type1Differences, 700, "second • page €")}}}}
-	return []pdfw.Doc{tiny, multi, cid, long, empty, diffs}
+	forms := pdfw.Doc{Name: "forms", Pages: []pdfw.Page{
+		{Lines: []pdfw.Line{ln(pdfw.Type1WinAnsi, 700, "page text before forms")},
+			Forms: []pdfw.Form{
+				{Name: "Fm0", Lines: []pdfw.Line{ln(pdfw.Type1WinAnsi, 650, "form zero é text")},
+					Forms: []pdfw.Form{{Name: "Fm1", Lines: []pdfw.Line{ln(pdfw.TrueTypeMacRoman, 620, "nested inner È form")}}}},
+				{Name: "Fm1", Lines: []pdfw.Line{ln(pdfw.Type1WinAnsi, 590, "page level fm1 text")}},
+			}},
+		{Lines: []pdfw.Line{ln(pdfw.TrueTypeMacRoman, 700, "second page Ø line")},
+			Forms: []pdfw.Form{{Name: "Fm0", Matrix: [6]float64{1, 0, 0, 1, 20, -40}, Lines: []pdfw.Line{ln(pdfw.Type1WinAnsi, 650, "shifted form text")}}}},
+	}}
+	return []pdfw.Doc{tiny, multi, cid, long, empty, diffs, forms}
 }
 
 var digits = regexp.MustCompile(`[0-9]+`)
@@ -75,8 +85,8 @@ func normErr(err error) string {
 }
 
 func run(e *harness.Env) {
-	e.Rule = "6 logical documents x layout vectors over 11 dimensions (xref/objstm, filter chain, /Length placement, content split count x whitespace side x cut rotation, " +
-		"page-tree depth x location of inheritable keys, revisions, numbering/file order, EOL, indirect Resources/Font/MediaBox/Contents-array objects); quick: all vectors with <=3 non-default choices, thorough: the full product; " +
+	e.Rule = "7 logical documents x layout vectors over 12 dimensions (xref/objstm, filter chain, /Length placement, content split count x whitespace side x cut rotation, " +
+		"page-tree depth x location of inheritable keys, revisions, numbering/file order, EOL, indirect Resources/Font/MediaBox/Contents-array objects, per-page font resource names); quick: all vectors with <=3 non-default choices, thorough: the full product; " +
 		"distinct = distinct descriptors, non-trivial = at least one non-default layout choice"
 	e.Assumptions = []string{"internal/gen/pdfw emits well-formed PDF (self-validated offsets/lengths; ISO 32000-1 7.5)", "x/text charmaps for WinAnsi/MacRoman byte encodings"}
 	bound := 3
@@ -125,10 +135,22 @@ func run(e *harness.Env) {
 			case "3u":
 				lay.Depth, lay.Unbalanced = 3, true
 			}
-			if lay.Depth > 1 {
+			hasForms := false
+			for _, p := range d.Pages {
+				if len(p.Forms) > 0 {
+					hasForms = true
+				}
+			}
+			switch {
+			case hasForms:
+				lay.Inherit = "leaf" // forms need per-page resource dictionaries
+			case lay.Depth > 1:
 				lay.Inherit = c.PickS("inherit", "leaf", "parent", "root")
-			} else {
+			default:
 				lay.Inherit = c.PickS("inherit", "leaf", "parent")
+			}
+			if lay.Inherit == "leaf" || lay.Inherit == "" {
+				lay.PerPageFonts = c.PickS("fontnames", "global", "per-page") == "per-page"
 			}
 			lay.Revisions = c.PickI("rev", 1, 2, 3)
 			lay.Order = c.PickS("order", "asc", "desc")
@@ -186,7 +208,7 @@ func checkFile(path string, d pdfw.Doc) (sig, detail string) {
 		for _, f := range frs {
 			got = append(got, f.Text)
 		}
-		for _, l := range p.Lines {
+		for _, l := range pdfw.FlattenPage(p) {
 			want = append(want, nfc(l.Text))
 		}
 		if strings.Join(got, "\x1f") != strings.Join(want, "\x1f") {
@@ -212,7 +234,7 @@ func checkFile(path string, d pdfw.Doc) (sig, detail string) {
 		if len(mb) != 4 || mb[0] != wantMB[0] || mb[1] != wantMB[1] || mb[2] != wantMB[2] || mb[3] != wantMB[3] {
 			return "mediabox-wrong", fmt.Sprintf("page %d: got %v want %v", i+1, mb, wantMB)
 		}
-		if len(p.Lines) > 0 {
+		if len(pdfw.FlattenPage(p)) > 0 {
 			res, err := pg.Resources()
 			if err != nil || res == nil || res.Get("Font") == nil {
 				return "resources-missing", fmt.Sprintf("page %d: Resources()=%v err=%v", i+1, res, err)
@@ -222,7 +244,7 @@ func checkFile(path string, d pdfw.Doc) (sig, detail string) {
 	// public API: whole document and the last page alone
 	var all []string
 	for _, p := range d.Pages {
-		for _, l := range p.Lines {
+		for _, l := range pdfw.FlattenPage(p) {
 			all = append(all, strings.Fields(nfc(l.Text))...)
 		}
 	}
@@ -235,7 +257,7 @@ func checkFile(path string, d pdfw.Doc) (sig, detail string) {
 	}
 	last := len(d.Pages)
 	var lastWant []string
-	for _, l := range d.Pages[last-1].Lines {
+	for _, l := range pdfw.FlattenPage(d.Pages[last-1]) {
 		lastWant = append(lastWant, nfc(l.Text))
 	}
 	frs, _, err := tabula.Open(path).Pages(last).Fragments()
